@@ -1,4 +1,5 @@
-"""pytr.tryexc — `try: A except C1 [as n]: H1 except C2: H2 …` with `return` / `raise` / bare `raise` anywhere (no else / finally).
+"""pytr.tryexc — `try: A except C1 [as n]: H1 except C2: H2 … [else: E]` with `return` / `raise` / bare `raise` anywhere (no finally).
+`else: E` runs when A fell through, outside the handlers' reach: it is the start of the `.inr` arm.
 
 Mix `TryExcept` in BEFORE `Stmts`:  class Fn(TryExcept, Stmts).
 
@@ -25,15 +26,15 @@ class TryExcept:
         self.handler_exc = []
 
     def try_(self, s, env, go, live):
-        if s.orelse or s.finalbody:
+        if s.finalbody:
             return super().try_(s, env, go, live)
         for h in s.handlers:
             if not (isinstance(h.type, ast.Name) and h.type.id in self.CAUGHT): bad(s, f'except clause {ast.unparse(h.type) if h.type else ""}')
-        assigned = assigned_names(s.body, self.writes_map)
+        assigned = {n.id for st in s.body for n in ast.walk(st) if isinstance(n, ast.Name) and isinstance(n.ctx, ast.Store)}
         for h in s.handlers:
             clash = assigned & read_names(h.body)
             if clash: bad(h, f'the handler reads {sorted(clash)}, assigned in the try body')
-        vars_ = self.join_vars([s.body], env, live)
+        vars_ = self.join_vars([s.body], env, set(live) | read_names(s.orelse))
         # the body: returns are `.inl`, the end is `.inr vars`
         ends = []
         def fall(env2):
@@ -55,8 +56,9 @@ class TryExcept:
         env2 = dict(env)
         for v, t in zip(vars_, types): env2[v] = t
         r = self.tmp()
-        returned = self.ok(r, self.ret_type_tag(), env, s)
-        rest = go(env2) if ends else ('raw', self.unreachable())
+        has_return = any(isinstance(n, ast.Return) for st in s.body for n in ast.walk(st))
+        returned = self.ok(r, self.ret_type_tag(), env, s) if has_return else ('raw', self.unreachable())
+        rest = (self._seq(s.orelse, env2, go, live) if s.orelse else go(env2)) if ends else ('raw', self.unreachable())
         handlers = []
         for h in s.handlers:
             env_h = dict(env)
